@@ -374,6 +374,9 @@ func TestC11(t *testing.T) {
 				offs[k] = true
 				offs[len(cf.Data)-k] = true
 			}
+			if rec.WantSample() && len(cf.Data) < 300 {
+				rec.Sample(map[string]any{"corpus_file": cf.Name, "bytes": len(cf.Data), "offsets": "record ends +-3, first/last 16 bytes, stride 97; x {cut, fault, fault-with-data}"})
+			}
 			var ks []int
 			for k := range offs {
 				if k >= 0 && k <= len(cf.Data) {
@@ -428,7 +431,7 @@ func TestC11(t *testing.T) {
 				c.Text = append(c.Text, s.String())
 			}
 			total := len(layout(c).data)
-			if rec.WantSample() && total < 150 {
+			if rec.WantSample() && total < 400 {
 				rec.Sample(map[string]any{"streams": c.Text, "offsets": "every cut and fault offset 0.." + fmt.Sprint(total)})
 			}
 			// every offset x {cut, fault, fault with data}
